@@ -105,7 +105,11 @@ def main(argv=None):
     seen_keys = set()
     for v in sat:
         try:
-            r = P.replay(v)
+            import contextlib
+            import io
+
+            with contextlib.redirect_stdout(io.StringIO()), contextlib.redirect_stderr(io.StringIO()):
+                r = P.replay(v)
         except BaseException as e:  # noqa
             r = {"reproduced": False, "key": None, "detail": f"replay crashed: {type(e).__name__}: {e}"}
         v["replay"] = r
